@@ -2,6 +2,8 @@
 # (script language: harness/c17_api.h).  All randomness comes from the rng passed in.
 import binascii, re
 import gen_c17_csrc as CS
+import gen_c17_cfg as CFG
+import gen_c17_cgen as CG
 
 MIX_OPT_CLASSES = True
 def debug_ok(src):
@@ -299,7 +301,13 @@ class Scen:
         rng = self.rng
         n = self.name()
         extra = []
-        if rng.random() < 0.55:
+        q = rng.random()
+        if q < 0.3:
+            # a generated unit: every expression kind x operand type combination (conditionals over void / qualified
+            # pointers, alloca, label addresses ...), goto into loops, computed goto (tools/gen_c17_cgen.py)
+            tag, src, need = CG.c_unit(rng)
+            kind = 'c:cgen'
+        elif q < 0.65:
             tag, src, need = rng.choice([u for u in CS.UNITS if u[0] not in EXCLUDE_TAGS])
             kind = 'c:' + tag
         else:
@@ -347,7 +355,15 @@ class Scen:
             self.lines.append('scan ' + hexs(stress_module(rng, n, rng.choice([20, 60, 150]))))
             self._new_func('f' + n, 'stress')
             self.kinds.append('stress')
-        elif k < 0.77:
+        elif k < 0.69:
+            # generated functions with arbitrary control-flow graphs (irreducible / nested / overlapping loops, switch,
+            # indirect jumps, unreachable blocks): the generator's CFG, loop-tree and SSA code at every level
+            n = self.name()
+            shape = rng.choice([None, None, 'irreducible', 'nested'])
+            self.lines.append('scan ' + hexs(CFG.cfg_module(rng, n, shape)))
+            self._new_func('f' + n, 'cfg')
+            self.kinds.append('cfg-' + (shape or 'random'))
+        elif k < 0.85:
             i = rng.randrange(len(MIR_POOL))
             n = self.name()
             self.lines.append('scan ' + hexs(MIR_POOL[i].replace('@N@', n)))
@@ -581,6 +597,15 @@ def fixed_scenarios():
             x = nm()
             L.append('scan ' + hexs(stress_module(_r.Random(len(out)), x, 200)))
             fs.append('f' + x)
+            # generated control-flow graphs (one irreducible, one nested, two random) and generated C units
+            for j, shape in enumerate(['irreducible', 'nested', None, None]):
+                x = nm()
+                L.append('scan ' + hexs(CFG.cfg_module(_r.Random(1000 + 10 * len(out) + j), x, shape)))
+                fs.append('f' + x)
+            for j in range(3):
+                x = nm()
+                L.append('c2m u%s.c %s' % (x, hexs(CG.c_unit(_r.Random(2000 + 10 * len(out) + j))[1].replace('@N@', x))))
+                fs.append('f' + x)
             L += ['api 900 1', 'output', 'write', 'read' if False else 'fwrite', 'load', 'gen_init', 'opt %d' % lvl,
                   'link ' + iface]
             fs.append('apif900')
@@ -643,7 +668,7 @@ def valid(lines):
             if not s['c2m'] or a1 is None or a2 is None:
                 return False
             s['mods'].append(['f' + a1[1:-2]])
-        elif cmd == 'c2mx':
+        elif cmd in ('c2mx', 'c2mt'):
             if not s['c2m'] or a1 is None or a2 is None:
                 return False
         elif cmd == 'c2mo':
